@@ -538,9 +538,81 @@ func (rn *runner) history(seedDesc string, nOps int) {
 
 	rn.insts = nil
 	var asyncIdx []int
+	var script []attempt
+	failing := map[int]bool{} // callbacks that return an error in the current cycle (after observing)
+	type regState struct {
+		reg   metric.Registration // nil: a callback attached when the instrument was created (cannot be unregistered)
+		insts []int
+	}
+	regs := map[int]*regState{}
+	var live, multi []int
+	nextCb := 0
+	var terms, descOps []string
+	// callbacks attached at creation (metric.WithInt64Callback / WithFloat64Callback): 0-2 per observable
+	// instrument; they run before the RegisterCallback ones and can observe only their own instrument
+	creationCbs := func(i int, float bool) (ics []metric.Int64ObservableOption, fcs []metric.Float64ObservableOption) {
+		n := vgen.Pick(r, []int{0, 0, 1, 1, 2})
+		for j := 0; j < n; j++ {
+			id := nextCb
+			nextCb++
+			regs[id] = &regState{insts: []int{i}}
+			terms = append(terms, vgen.App("Rg", vgen.N(uint64(id)), vgen.List([]string{vgen.N(uint64(i))})))
+			descOps = append(descOps, fmt.Sprintf("instrument i%d created with callback cb%d", i, id))
+			w.Tally("creation-time callback")
+			if float {
+				fcs = append(fcs, metric.WithFloat64Callback(func(_ context.Context, o metric.Float64Observer) error {
+					for _, a := range script {
+						if a.cb == id && a.inst == i {
+							o.Observe(float64(a.v)/scale, metric.WithAttributes(toAttr(a.kvs)...))
+						}
+					}
+					if failing[id] {
+						return errCallback
+					}
+					return nil
+				}))
+			} else {
+				ics = append(ics, metric.WithInt64Callback(func(_ context.Context, o metric.Int64Observer) error {
+					for _, a := range script {
+						if a.cb == id && a.inst == i {
+							o.Observe(a.v, metric.WithAttributes(toAttr(a.kvs)...))
+						}
+					}
+					if failing[id] {
+						return errCallback
+					}
+					return nil
+				}))
+			}
+		}
+		return
+	}
+	optsI := func(cs []metric.Int64ObservableOption) (a []metric.Int64ObservableCounterOption, b []metric.Int64ObservableUpDownCounterOption, c []metric.Int64ObservableGaugeOption) {
+		for _, x := range cs {
+			a, b, c = append(a, x), append(b, x), append(c, x)
+		}
+		return
+	}
+	optsF := func(cs []metric.Float64ObservableOption) (a []metric.Float64ObservableCounterOption, b []metric.Float64ObservableUpDownCounterOption, c []metric.Float64ObservableGaugeOption) {
+		for _, x := range cs {
+			a, b, c = append(a, x), append(b, x), append(c, x)
+		}
+		return
+	}
 	for i, k := range kinds {
 		in := &instr{kind: k, float: r.Bool(), name: fmt.Sprintf("i%d", i)}
 		var err error
+		var ic1 []metric.Int64ObservableCounterOption
+		var ic2 []metric.Int64ObservableUpDownCounterOption
+		var ic3 []metric.Int64ObservableGaugeOption
+		var fc1 []metric.Float64ObservableCounterOption
+		var fc2 []metric.Float64ObservableUpDownCounterOption
+		var fc3 []metric.Float64ObservableGaugeOption
+		if k.async() {
+			ics, fcs := creationCbs(i, in.float)
+			ic1, ic2, ic3 = optsI(ics)
+			fc1, fc2, fc3 = optsF(fcs)
+		}
 		switch k {
 		case kCounter:
 			if in.float {
@@ -588,31 +660,31 @@ func (rn *runner) history(seedDesc string, nOps int) {
 		case kObsCounter:
 			if in.float {
 				var o metric.Float64ObservableCounter
-				o, err = meter.Float64ObservableCounter(in.name)
+				o, err = meter.Float64ObservableCounter(in.name, fc1...)
 				in.fo, in.obs = o, o
 			} else {
 				var o metric.Int64ObservableCounter
-				o, err = meter.Int64ObservableCounter(in.name)
+				o, err = meter.Int64ObservableCounter(in.name, ic1...)
 				in.io, in.obs = o, o
 			}
 		case kObsUpDown:
 			if in.float {
 				var o metric.Float64ObservableUpDownCounter
-				o, err = meter.Float64ObservableUpDownCounter(in.name)
+				o, err = meter.Float64ObservableUpDownCounter(in.name, fc2...)
 				in.fo, in.obs = o, o
 			} else {
 				var o metric.Int64ObservableUpDownCounter
-				o, err = meter.Int64ObservableUpDownCounter(in.name)
+				o, err = meter.Int64ObservableUpDownCounter(in.name, ic2...)
 				in.io, in.obs = o, o
 			}
 		case kObsGauge:
 			if in.float {
 				var o metric.Float64ObservableGauge
-				o, err = meter.Float64ObservableGauge(in.name)
+				o, err = meter.Float64ObservableGauge(in.name, fc3...)
 				in.fo, in.obs = o, o
 			} else {
 				var o metric.Int64ObservableGauge
-				o, err = meter.Int64ObservableGauge(in.name)
+				o, err = meter.Int64ObservableGauge(in.name, ic3...)
 				in.io, in.obs = o, o
 			}
 		}
@@ -627,15 +699,6 @@ func (rn *runner) history(seedDesc string, nOps int) {
 	}
 
 	// ---- run ----
-	var script []attempt
-	failing := map[int]bool{} // callbacks that return an error in the current cycle (after observing)
-	type regState struct {
-		reg   metric.Registration
-		insts []int
-	}
-	regs := map[int]*regState{}
-	var live []int
-	nextCb := 0
 	mkCallback := func(id int) metric.Callback {
 		return func(_ context.Context, o metric.Observer) error {
 			for _, a := range script {
@@ -658,13 +721,12 @@ func (rn *runner) history(seedDesc string, nOps int) {
 	}
 
 	var ops []op
-	var terms []string
-	type collectObs struct {
-		d, c       []streamObs
-		errD, errC bool
+	// one entry per collection of that reader (the readers also collect on their own)
+	type readerObs struct {
+		streams []streamObs
+		err     bool
 	}
-	var collected []collectObs
-	var descOps []string
+	var dObs, cObs []readerObs
 	var syncIdx []int
 	for i, k := range kinds {
 		if !k.async() {
@@ -710,11 +772,15 @@ func (rn *runner) history(seedDesc string, nOps int) {
 			}
 			regs[id] = &regState{reg: reg, insts: is}
 			live = append(live, id)
+			multi = append(multi, id)
 			terms = append(terms, vgen.App("Rg", vgen.N(uint64(id)), vgen.List(isT)))
 			descOps = append(descOps, fmt.Sprintf("register cb%d %v", id, is))
 		case !last && c < 70 && nextCb > 0:
 			// unregister: mostly a live one, sometimes one already unregistered (a no-op)
-			id := r.Intn(nextCb)
+			if len(multi) == 0 {
+				continue
+			}
+			id := vgen.Pick(r, multi)
 			if len(live) > 0 && r.Chance(3, 4) {
 				id = vgen.Pick(r, live)
 			}
@@ -743,7 +809,7 @@ func (rn *runner) history(seedDesc string, nOps int) {
 					n := r.Intn(5)
 					for j := 0; j < n; j++ {
 						i := vgen.Pick(r, asyncIdx) // may be an instrument the callback was not registered with
-						if r.Chance(3, 4) {
+						if r.Chance(3, 4) || regs[id].reg == nil {
 							i = vgen.Pick(r, regs[id].insts)
 						}
 						kvs := genKVs(r, sets)
@@ -753,30 +819,46 @@ func (rn *runner) history(seedDesc string, nOps int) {
 					}
 				}
 			}
-			var rmD, rmC metricdata.ResourceMetrics
-			var errD, errC error
-			if r.Bool() {
-				errD = deltaR.Collect(ctx, &rmD)
-				errC = cumR.Collect(ctx, &rmC)
-			} else {
-				errC = cumR.Collect(ctx, &rmC)
-				errD = deltaR.Collect(ctx, &rmD)
-			}
-			for _, e := range []error{errD, errC} {
+			// who collects: both readers (in either order), only the delta reader, only the cumulative one
+			who := vgen.Pick(r, []uint64{0, 0, 0, 1, 2})
+			d := map[string]any{"history": seedDesc, "collection": nCollect}
+			collectOne := func(delta bool) bool {
+				var rm metricdata.ResourceMetrics
+				var e error
+				if delta {
+					e = deltaR.Collect(ctx, &rm)
+				} else {
+					e = cumR.Collect(ctx, &rm)
+				}
 				if e != nil && !errors.Is(e, errCallback) {
 					w.Violation(fmt.Sprintf("Collect failed with an error other than the callback's: %v", e), seedDesc)
-					return
+					return false
+				}
+				if e != nil {
+					w.Tally("collect:callback-error")
+				}
+				if delta {
+					dObs = append(dObs, readerObs{streams: rn.extract(&rm, metricdata.DeltaTemporality, d), err: e != nil})
+				} else {
+					cObs = append(cObs, readerObs{streams: rn.extract(&rm, metricdata.CumulativeTemporality, d), err: e != nil})
+				}
+				return true
+			}
+			order := []bool{true, false}
+			if r.Bool() {
+				order = []bool{false, true}
+			}
+			for _, delta := range order {
+				if who == 0 || (who == 1) == delta {
+					if !collectOne(delta) {
+						return
+					}
 				}
 			}
-			d := map[string]any{"history": seedDesc, "collection": nCollect}
-			collected = append(collected, collectObs{d: rn.extract(&rmD, metricdata.DeltaTemporality, d), c: rn.extract(&rmC, metricdata.CumulativeTemporality, d),
-				errD: errD != nil, errC: errC != nil})
-			if errD != nil || errC != nil {
-				w.Tally("collect:callback-error")
-			}
 			nCollect++
-			terms = append(terms, vgen.App("Co", vgen.List(at), vgen.List(failT)))
-			descOps = append(descOps, fmt.Sprintf("collect (%d attempts, failing callbacks %v) -> errors %v/%v", len(script), failT, errD != nil, errC != nil))
+			w.Tally(fmt.Sprintf("collect:who=%d", who))
+			terms = append(terms, vgen.App("Co", vgen.N(who), vgen.List(at), vgen.List(failT)))
+			descOps = append(descOps, fmt.Sprintf("collect who=%d (%d attempts, failing callbacks %v)", who, len(script), failT))
 			w.Tally(fmt.Sprintf("collect:attempts=%d", min(len(script), 12)/4*4))
 		default:
 			continue
@@ -785,9 +867,9 @@ func (rn *runner) history(seedDesc string, nOps int) {
 
 	// ---- time ranks: instants are only compared by order and equality ----
 	var instants []time.Time
-	for _, co := range collected {
-		for _, tr := range [][]streamObs{co.d, co.c} {
-			for _, so := range tr {
+	for _, obs := range [][]readerObs{dObs, cObs} {
+		for _, co := range obs {
+			for _, so := range co.streams {
 				if so.reported {
 					instants = append(instants, so.start, so.time)
 				}
@@ -834,10 +916,13 @@ func (rn *runner) history(seedDesc string, nOps int) {
 	nPoints := 0
 	for i := range rn.insts {
 		var dtr, ctr []string
-		for _, co := range collected {
-			dtr = append(dtr, obsTerm(co.d[i]))
-			ctr = append(ctr, obsTerm(co.c[i]))
-			nPoints += len(co.d[i].points) + len(co.c[i].points)
+		for _, co := range dObs {
+			dtr = append(dtr, obsTerm(co.streams[i]))
+			nPoints += len(co.streams[i].points)
+		}
+		for _, co := range cObs {
+			ctr = append(ctr, obsTerm(co.streams[i]))
+			nPoints += len(co.streams[i].points)
 		}
 		perInst = append(perInst, vgen.Pair(vgen.List(dtr), vgen.List(ctr)))
 	}
@@ -852,11 +937,14 @@ func (rn *runner) history(seedDesc string, nOps int) {
 		kindD = append(kindD, kindNames[in.kind]+"/"+fl)
 		w.Tally("kind:" + kindNames[in.kind] + "/" + fl)
 	}
-	var errT []string
-	for _, co := range collected {
-		errT = append(errT, vgen.Pair(vgen.Bool(co.errD), vgen.Bool(co.errC)))
+	var errDT, errCT []string
+	for _, co := range dObs {
+		errDT = append(errDT, vgen.Bool(co.err))
 	}
-	term := vgen.App("CHist", vgen.List(kindT), vgen.List(terms), vgen.List(perInst), vgen.List(errT))
+	for _, co := range cObs {
+		errCT = append(errCT, vgen.Bool(co.err))
+	}
+	term := vgen.App("CHist", vgen.List(kindT), vgen.List(terms), vgen.List(perInst), vgen.Pair(vgen.List(errDT), vgen.List(errCT)))
 	desc := map[string]any{"history": seedDesc, "instruments": kindD, "attribute_sets": canons, "ops": descOps, "delta_reader_first": deltaFirst}
 	w.Tally(fmt.Sprintf("history:ops=%d", len(terms)/20*20))
 	w.Tally(fmt.Sprintf("history:collections=%d", min(nCollect, 24)/4*4))
@@ -903,7 +991,7 @@ func (p ePoint) coq() string {
 // scale <= 3, so down-shifting a finer index gives exactly the coarser index.
 func (rn *runner) expoHistory(desc string) {
 	r, w := rn.r, rn.w
-	maxSize := int32(r.Range(2, 6))
+	maxSize := int32(vgen.Pick(r, []int{1, 1, 2, 2, 3, 4, 5, 6}))
 	maxScale := int32(r.Range(0, 3))
 	float := r.Bool()
 	sets, canons := [][]kv{}, []string{}
@@ -982,6 +1070,7 @@ func (rn *runner) expoHistory(desc string) {
 	var measT, obsT, descC []string
 	for c := 0; c < nCycles; c++ {
 		counts := map[uint64]uint64{}
+		flags := map[uint64]uint64{}
 		n := r.Range(0, 6)
 		var vals []string
 		for j := 0; j < n; j++ {
@@ -1001,8 +1090,29 @@ func (rn *runner) expoHistory(desc string) {
 			if r.Chance(1, 8) {
 				v = 0
 			}
+			if float && r.Chance(1, 6) { // magnitudes on both sides of 1 (0.5, 2): the two buckets of the minimum scale
+				v = vgen.Pick(r, []int64{3 * scale / 4, 3 * scale / 2}) // 0.75, 1.5
+				if maxScale == 0 {                                      // exact powers of two only where the index needs no logarithm
+					v = vgen.Pick(r, []int64{scale / 2, 2 * scale, 3 * scale / 4, 3 * scale / 2})
+				}
+			}
 			if r.Chance(1, 4) {
 				v = -v
+			}
+			// which side of 1 the magnitude is on (model units: 1 = scale for float instruments)
+			one := int64(1)
+			if float {
+				one = scale
+			}
+			switch {
+			case v > 0 && v <= one:
+				flags[kt.of(canon(s))] |= 1
+			case v > one:
+				flags[kt.of(canon(s))] |= 2
+			case v < 0 && -v <= one:
+				flags[kt.of(canon(s))] |= 4
+			case v < -one:
+				flags[kt.of(canon(s))] |= 8
 			}
 			opt := metric.WithAttributes(toAttr(s)...)
 			if float {
@@ -1043,7 +1153,7 @@ func (rn *runner) expoHistory(desc string) {
 		sort.Slice(ks, func(a, b int) bool { return ks[a] < ks[b] })
 		var mc, dT, cT []string
 		for _, k := range ks {
-			mc = append(mc, vgen.App("MC", vgen.N(k), vgen.N(counts[k])))
+			mc = append(mc, vgen.App("MC", vgen.N(k), vgen.N(counts[k]), vgen.N(flags[k])))
 		}
 		for _, p := range dp {
 			dT = append(dT, p.coq())
@@ -1062,7 +1172,8 @@ func (rn *runner) expoHistory(desc string) {
 			w.Tally(fmt.Sprintf("expo:rescaled-by=%d", int64(maxScale)-minScale))
 		}
 	}
-	w.Add(vgen.App("CExpo", vgen.List(measT), vgen.List(obsT)),
+	w.Tally(fmt.Sprintf("expo:maxsize=%d", maxSize))
+	w.Add(vgen.App("CExpo", vgen.N(uint64(maxSize)), vgen.List(measT), vgen.List(obsT)),
 		map[string]any{"history": desc, "max_size": maxSize, "max_scale": maxScale, "float": float, "cycles": descC}, "expo-rescaling", nCycles >= 2)
 }
 
